@@ -44,7 +44,7 @@ def takeFree (prog : Prog) : Prop := ∀ h, ∀ op ∈ (prog h).ops, COp.isTake 
 /-- The thread running the call in the per-session semantics. -/
 def canon : Tid := 0
 
-def capiSys (R : RApi) (pol : Policy) (prog : Prog) (V : Type) (g0 : Nat → V) : Sys where
+@[reducible] def capiSys (R : RApi) (pol : Policy) (prog : Prog) (V : Type) (g0 : Nat → V) : Sys where
   V := V
   St := Env R
   Call := TopOp R.Chunk
